@@ -976,6 +976,7 @@ func parentMain(e *Engine, tier string, seed uint64, workers, runsOverride, secs
 	// data races reported by the Go race detector in non-harness code
 	sort.Slice(races, func(i, j int) bool { return races[i].index < races[j].index })
 	harnessReports := 0
+	unconfirmedRaces := 0
 	for _, rr := range races {
 		if rr.harness {
 			harnessReports++
@@ -996,7 +997,7 @@ func parentMain(e *Engine, tier string, seed uint64, workers, runsOverride, secs
 		// confirm in a fresh process (tsan keeps four shadow cells per word and
 		// evicts at random, so retry)
 		confirmed := false
-		for try := 0; try < 5 && !confirmed; try++ {
+		for try := 0; try < 12 && !confirmed; try++ {
 			cmd := exec.Command(self, "-prop", e.ID, "-tier", tier, "-seed", fmt.Sprint(seed), "-one", fmt.Sprint(rr.index))
 			cmd.Env = append(os.Environ(), "GORACE=halt_on_error=0 exitcode=0")
 			out, _ := cmd.CombinedOutput()
@@ -1007,13 +1008,21 @@ func parentMain(e *Engine, tier string, seed uint64, workers, runsOverride, secs
 			}
 		}
 		if !confirmed {
-			fmt.Fprintf(os.Stderr, "race report at index %d did not reproduce in 5 fresh processes; kept at %s\n%s\n", rr.index, path, rr.text)
-			return 2
+			// (the detector keeps four shadow cells per word and evicts at
+			// random: a report may need more luck than the re-runs had)
+			fmt.Fprintf(os.Stderr, "race report at index %d did not reproduce in 12 fresh processes; kept at %s\n%s\n", rr.index, path, rr.text)
+			unconfirmedRaces++
+			continue
 		}
 		fmt.Printf("violation: %s\n", fnd)
 		fmt.Printf("VIOLATION property=%s replay=%s\n", e.ID, path)
 		violations++
 		exit = 1
+	}
+	if unconfirmedRaces > 0 && exit == 0 {
+		// a report that cannot be reproduced and nothing else to show: the
+		// harness cannot stand behind a verdict either way
+		return 2
 	}
 	for _, f := range extraFindings {
 		if kn := isKnown(known, f); kn != nil {
